@@ -111,4 +111,53 @@ PROPS = {
             "entry.*::read": 24000,
         },
     },
+    "C01": {
+        "level": "exploration",
+        "rule": "cases = generated packets, truncation sweeps, IP-level inputs, single headers (slice and reader based), typed views "
+                "(TCP/NDP option iterators, ICMP, IGMP, ARP, checksum helpers), noise; every decoding entry point x full accessor / "
+                "conversion / iterator / formatter closure (observe/exhaust.rs) x 4 placements of the same bytes (end-aligned at a "
+                "PROT_NONE page, start-aligned behind one, two odd offsets between different fillers); instruments: core's "
+                "unsafe-precondition checks + overflow checks (chk), guard pages on the plain release build (rel), Miri on a reduced "
+                "workload, in thorough also AddressSanitizer and valgrind memcheck with exact-size heap buffers; evaluations = calls "
+                "into etherparse judged (one per entry point and placement); distinct = distinct (entry point, layer sequence / "
+                "outcome class) signatures",
+        "assumptions": COMMON_ASSUME + [
+            "guard pages detect reads past the end / before the start of the buffer, not stray reads that stay inside it: those are "
+            "left to the slice-relative checks of the chk flavour, ASan/Miri and the position-independence comparison",
+            "Miri, ASan and memcheck see only the reduced workloads listed in instrument_runs",
+        ],
+        "runs": {
+            "quick": [dict(CHK), {"flavour": "rel"}, {"flavour": "miri", "scale": 0.0004, "budget_s": 1500}],
+            "thorough": [dict(CHK), {"flavour": "rel"}, {"flavour": "asan", "scale": 0.5}, {"flavour": "vg", "scale": 0.004, "budget_s": 7200},
+                         {"flavour": "miri", "scale": 0.0001, "budget_s": 7200}],
+        },
+        "abnormal_owner": "C01",
+        "mandatory": {
+            "placements_compared": 100000, "sub_slices_checked": 1000000, "accessor_calls": 1000000,
+            "entry.SlicedPacket::*": 1000, "entry.LaxSlicedPacket::*": 1000, "entry.PacketHeaders::*": 1000,
+            "entry.LaxPacketHeaders::*": 1000, "entry.*::read": 1000, "entry.*::from_slice": 1000,
+        },
+        "min_distinct": {"entry.*": 85},
+    },
+    "C02": {
+        "level": "exploration",
+        "rule": "same workload as C01 (every decoding entry point x accessor / conversion / iterator / formatter closure incl. "
+                "Debug/Display of every result and error, iterators driven to exhaustion + 3 further next() calls under a step budget "
+                "of items <= bytes+1), end-aligned placement; events: panic caught by the shell (overflow checks and debug assertions "
+                "on), step budget exceeded, abnormal worker exit (abort/signal) or a hang confirmed twice in isolation; distinct = "
+                "distinct (entry point, layer sequence / outcome class) signatures",
+        "assumptions": COMMON_ASSUME + ["hangs are decided on a 30 s no-progress watchdog and must reproduce twice in isolation"],
+        "runs": {
+            "quick": [dict(CHK), {"flavour": "rel", "scale": 0.5}],
+            "thorough": [dict(CHK), {"flavour": "rel"}],
+        },
+        "abnormal_owner": "C02",
+        "mandatory": {
+            "accessor_calls": 1000000, "bytes_rendered": 100000000,
+            "entry.SlicedPacket::*": 1000, "entry.LaxSlicedPacket::*": 1000, "entry.PacketHeaders::*": 1000,
+            "entry.LaxPacketHeaders::*": 1000, "entry.*::read": 1000, "entry.TcpOptionsIterator::from_slice": 500,
+            "entry.NdpOptionsIterator::from_slice": 500,
+        },
+        "min_distinct": {"entry.*": 85},
+    },
 }
